@@ -10,10 +10,10 @@ use std::collections::{BTreeMap, BTreeSet};
 
 /// Component alphabet of the in-process universe: many byte-prefix pairs
 /// (a/ab/a-b/a.b/app/app2), punctuation, non-ASCII.
-/// Path components. The last one is long (55 bytes) and full of 2-byte characters: nested one,
-/// two or three deep it puts a character boundary next to every small offset and makes paths of
-/// 55-170 bytes.
-pub const ALPHA: [&str; 9] = ["a", "ab", "a-b", "a.b", "app", "app2", "lib", "é", "référentiel-de-données-partagées-et-schémas-générés"];
+/// Path components. The last one is long: nineteen 3-byte characters and one ASCII character
+/// (58 bytes), so that byte offsets counted from either end of a path mostly fall inside a
+/// character; nested it makes paths of up to 180 bytes.
+pub const ALPHA: [&str; 9] = ["a", "ab", "a-b", "a.b", "app", "app2", "lib", "é", "共有ライブラリと生成されたスキーマ定義2"];
 pub const UNIVERSE_DEPTH: usize = 3;
 
 /// Create the universe work directory: every path over ALPHA up to depth 3 is a
